@@ -19,7 +19,8 @@ PROPERTY = 'C02'
 LEVEL = 'exploration'
 RULE = ("doctests of 1..8 statements from {emit (prints), an expression printing two lines, val (returns an object with repr R<id>, str S<id>), pv (prints and "
         "returns), assignment of a value, printing for loop, multi-line call, multi-line value expression, ';' line, "
-        "';' line ending in a value, silent call}; after a statement a want is placed with p=0.55 in one of the forms "
+        "';' line ending in a value, silent call, expressions whose output is only an empty / blank line (want <BLANKLINE>), "
+        "alone, after other output, or together with a returned value}; after a statement a want is placed with p=0.55 in one of the forms "
         "A/B/C that applies; statements without wants are split into several parts by prose/blank lines so the "
         "accumulation buffer holds 1..4 entries; in half of the cases exactly one want is corrupted (replace, append, "
         "prepend, drop-last) and the remaining statements follow it.  Plus doctests in which nothing can run (comment "
@@ -46,11 +47,20 @@ def required_cells(tier):
                 continue        # a repr is one line
             cells.append('corrupt:%s:%s' % (f, c))
     cells += ['depth:1', 'depth:2', 'depth:3', 'nothing-ran:comment-only', 'nothing-ran:skip-block',
-              'nothing-ran:google-no-prompts', 'no-want-at-all']
+              'nothing-ran:google-no-prompts', 'no-want-at-all', 'blankline-want:A', 'blankline-want:B']
     return cells
 
 
-KINDS = ['emit', 'emit', 'twice', 'twice', 'val', 'pv', 'pv', 'assign', 'for', 'multi', 'valml', 'semi', 'semival', 'quiet']
+KINDS = ['emit', 'emit', 'twice', 'twice', 'val', 'pv', 'pv', 'assign', 'for', 'multi', 'valml', 'semi', 'semival', 'quiet',
+         'blankout', 'wsout', 'emitblank', 'pvblank']
+
+
+def out_to_want(text):
+    """the want lines that spell `text` exactly: a line of blanks only is written <BLANKLINE>"""
+    lines = text.split('\n')
+    if lines and lines[-1] == '':
+        lines.pop()
+    return [ln if ln.strip() else '<BLANKLINE>' for ln in lines]
 
 
 def gen_program(rng):
@@ -81,6 +91,16 @@ def gen_program(rng):
             S.append(St(['x%d = %d; val(%d)' % (k, k, k)], kind, k, is_expr=True))
         elif kind == 'quiet':
             S.append(St(['quiet(%d)' % k], kind, k, is_expr=True))
+        elif kind == 'blankout':
+            # an evaluated expression whose whole output is one empty line (value None)
+            S.append(St(['print(end=quiet(%d) or "\\n")' % k], kind, k, is_expr=True))
+        elif kind == 'wsout':
+            S.append(St(['print("  ", end=quiet(%d) or "\\n")' % k], kind, k, is_expr=True))
+        elif kind == 'emitblank':
+            S.append(St(['(emit(%d), print()) and None' % k], kind, k, is_expr=True))
+        elif kind == 'pvblank':
+            # prints only a blank line and returns a value
+            S.append(St(['(print(), val(%d))[1]' % k], kind, k, is_expr=True))
     return S
 
 
@@ -102,26 +122,30 @@ def plan_wants(rng, S, ref, corrupt):
     expect_fail = None
     corrupt_at = rng.randrange(len(S)) if corrupt else None
     seps = {}
+    blank_wants = []
     for idx, st in enumerate(S):
         out = ref.outs[idx]
         acc += out
         opts = []
         only_c = st.kind in ('valml', 'semival')
         if acc and not only_c:
-            opts.append(('A', acc.rstrip('\n')))
+            opts.append(('A', out_to_want(acc)))
         if st.is_expr and out and out != acc and not only_c:
-            opts.append(('B', out.rstrip('\n')))
+            opts.append(('B', out_to_want(out)))
         r = value_repr(st, ref, idx)
         if st.is_expr and r is not None:
-            opts.append(('C', r))
-        opts = [(t, w) for t, w in opts if gp.want_is_layoutable(w.split('\n'))]
+            opts.append(('C', [r]))
+        opts = [(t, w) for t, w in opts if gp.want_is_layoutable(w)]
         place = bool(opts) and (rng.random() < 0.55 or corrupt_at == idx)
         if place:
-            tag, w = rng.choice(opts)
-            wl = w.split('\n')
+            tag, wl = rng.choice(opts)
+            wl = list(wl)
+            if any(w == '<BLANKLINE>' for w in wl):
+                blank_wants.append(tag)
             if corrupt_at == idx:
                 c = rng.choice(CORRUPTIONS)
-                if c == 'drop' and len(wl) < 2:
+                # dropping a final <BLANKLINE> changes nothing (trailing whitespace is not compared)
+                if c == 'drop' and (len(wl) < 2 or wl[-1] == '<BLANKLINE>'):
                     c = 'replace'
                 if c == 'replace':
                     wl = ['BOGUS%d' % idx]
@@ -148,7 +172,7 @@ def plan_wants(rng, S, ref, corrupt):
             elif x < 0.35:
                 seps[idx] = 'blank'
                 depth += 0 if place else 1
-    return wants, placed, expect_fail, seps
+    return wants, placed, expect_fail, seps, blank_wants
 
 
 def render(rng, S, wants, seps, base_indent=0, google=False):
@@ -179,7 +203,7 @@ def check_case(ctx, index, case_seed):
     if ref.error is not None:
         raise AssertionError('generator produced a failing program %r' % (ref.error,))
     corrupt = rng.random() < 0.5
-    wants, placed, expect_fail, seps = plan_wants(rng, S, ref, corrupt)
+    wants, placed, expect_fail, seps, blank_wants = plan_wants(rng, S, ref, corrupt)
     google = rng.random() < 0.25
     doc = render(rng, S, wants, seps, base_indent=rng.choice([0, 4]), google=google)
     case = {'index': index, 'case_seed': case_seed, 'doc': doc, 'expect_fail': expect_fail,
@@ -225,6 +249,8 @@ def check_case(ctx, index, case_seed):
                 ctx.cell('depth:%d' % min(depth, 4))
         if not placed:
             ctx.cell('no-want-at-all')
+        for tag in blank_wants:
+            ctx.cell('blankline-want:' + tag)
     else:
         k = expect_fail['index']
         tag = expect_fail['form']
